@@ -265,6 +265,24 @@ def run(rep: Report, tier: str) -> None:
 				ok = (isinstance(key_expr, ast.Name) and key_expr.id in normalised) or (isinstance(key_expr, ast.Call) and isinstance(key_expr.func, ast.Attribute) and key_expr.func.attr in norm_calls[cls.name])
 				rk.check(ok, f'{cls.name}.{name}:{store}[{unparse(key_expr)}]', (DI_PY, n.lineno), f'{cls.name}.{name} accesses {store} with key `{unparse(key_expr)}`, which is not the normalised symbol ({sorted(normalised)}): a generic alias such as Gen[A] then addresses a different entry than Gen, so unbind/rebind leaves the old instance behind', unparse(n)[:100])
 
+	# the by-name keys (LazyDI's definition layer, DI's memo of factory annotations) are `to_fullyname(<symbol>)`: the name must identify the symbol within
+	# its module. `__qualname__` does (it carries the enclosing classes / functions); `__name__` does not — `Cpp.Config` and `Py.Config`, or two static
+	# factory methods `create` of different classes, get ONE key: the second factory is curried with the annotations of the first, unbind of one
+	# removes the other
+	lm = idx.mod('rogw/tranp/lang/module.py')
+	tf = lm.func('to_fullyname')
+	rep.consulted(lm.relpath)
+	if tf is None:
+		rk.skip('to_fullyname:qualified', (lm.relpath, 1), 'lang/module.py:to_fullyname vanished')
+	else:
+		tparam = tf.params()[0]
+		used = {n.attr for n in ast.walk(tf.node) if isinstance(n, ast.Attribute) and isinstance(n.value, ast.Name) and n.value.id == tparam}
+		if '__qualname__' in used:
+			rk.ok('to_fullyname:qualified', tf.where)
+		elif '__name__' in used:
+			rk.violate('to_fullyname:qualified', tf.where, f'to_fullyname builds the key from `{tparam}.__name__`: nested classes and static / local factories that share a simple name within one module collide on the key (`Cpp.Config` / `Py.Config`, two `create` factories): invoke curries one factory with the annotations recorded for the other, LazyDI.can_resolve answers for the wrong symbol, unbind of one removes the other', unparse(tf.node)[-80:])
+		else:
+			rk.skip('to_fullyname:qualified', tf.where, f'to_fullyname reads {sorted(used)} of the symbol: not classified')
 	# ---- (c) error types, curry prefix ----------------------------------------------------------------------------------
 	rc = rep.rule('C19/error-types-and-curry', 'public API raises ValueError (TypeError only in combine); invoke curries the maximal resolvable prefix and passes *remain_args after it', floor=6)
 	for cls in (di, lazy):
